@@ -334,6 +334,10 @@ class PubSubAdapter:
             return _Fault()
         h0 = next(iter(self.hosts.values()))
         d = {'method': m, 'host_id': self.real_host_id(msg['host'])}
+        if msg['host'] == 'nobody':        # addressed to no server at all
+            d['host_id'] = None
+        elif msg['host'] == 'absent':
+            del d['host_id']
         if m == 'callback':
             d.update(sid=h0._room(msg['sid']), namespace=msg['ns'],
                      id=msg['id'], args=tuple(val(x) for x in msg['args']))
@@ -696,7 +700,8 @@ CONFIGS['ps_listener_junk_quick'] = dict(
 CONFIGS['ps_listener_cb_quick'] = dict(
     _LST, cb_to=['s2'], ack_ids=[1], arm=True, max_chan=1,
     inject=[_CB('hx', 's2', 1), _CB('h2', 's2', 1), _CB('h1', 's2', 9),
-            _CB('h1', 's2', 1)])
+            _CB('h1', 's2', 1), _CB('nobody', 's2', 1),
+            _CB('absent', 's2', 1)])
 # junk and backend failures interleaved with operations whose processing
 # raises in the listener (disconnect handler raising: known finding D3)
 CONFIGS['ps_listener_fault_quick'] = dict(
